@@ -34,16 +34,6 @@ def _kind(value):
     return type(value)
 
 
-def as_lists(array):
-    """ Rows handed in as tuples (a list of tuples from a database driver, a tuple of cells) are an
-    array like lists of cells are - the rest of the library flattens both alike. """
-    if isinstance(array, tuple):
-        array = list(array)
-    if isinstance(array, list) and any(isinstance(row, tuple) for row in array):
-        array = [list(row) if isinstance(row, tuple) else row for row in array]
-    return array
-
-
 def fold_case(text):
     """ Lower case, letter by letter.  str.lower() makes two characters of a dotted capital I and
     spells a capital sigma by its place in the word: a ? of a pattern then stood for half a letter,
@@ -53,7 +43,7 @@ def fold_case(text):
 
 @dispatcher.register_for('MATCH')
 def MATCH(lookup_value, lookup_array, match_type=1):
-    lookup_array = as_lists(lookup_array)
+    lookup_array = utils.as_lists(lookup_array)
     if not lookup_value and not lookup_array:
         return error.NOT_AVAILABLE
 
@@ -118,7 +108,7 @@ def INDEX(arr, row_num=DEFAULT, column_num=DEFAULT, area_num=DEFAULT):
 
     if arr is None or (row_num is DEFAULT and column_num is DEFAULT):
         return error.VALUE
-    arr = as_lists(arr)
+    arr = utils.as_lists(arr)
 
     if not isinstance(arr, list):
         arr = [[arr]]
